@@ -102,7 +102,10 @@ function compileTexts(texts, scoped) {
       layout.push({ job: jobs.length, name: 't' + k, firstLine, lastLine: firstLine + t.split('\n').length - 1 })
       // scoped: the names a, b, c are the items of three nested loops instead of data fields; an outermost loop declares a and b
       // as well (item and index), which the inner loops shadow
-      src += scoped
+      src += scoped === 'cond'
+        // the expression as the condition of wx:if and of wx:elif (the generator appends `?<branch index>:` to it): which branch is taken
+        ? `<template name="t${k}"><a wx:if=${q}{{ ${t} }}${q} v="T"/><a wx:elif=${q}{{ ${t} }}${q} v="E"/><a wx:else v="F"/></template>\n`
+        : scoped
         ? `<template name="t${k}"><block wx:for="{{lz}}" wx:for-item="a" wx:for-index="b"><block wx:for="{{la}}" wx:for-item="a"><block wx:for="{{lb}}" wx:for-item="b"><block wx:for="{{lc}}" wx:for-item="c"><a v=${q}{{ ${t} }}${q}/></block></block></block></block></template>\n`
         : `<template name="t${k}"><a v=${q}{{ ${t} }}${q}/></template>\n`
     })
@@ -133,7 +136,7 @@ function compileTexts(texts, scoped) {
       eval(data) {
         return outcomeOf(() => {
           const rt = RT.makeRuntime()
-          const r = proc(rt.R, true, scoped ? { lz: ['shadowed outer item'], la: [data.a], lb: [data.b], lc: [data.c] } : data, undefined)
+          const r = proc(rt.R, true, scoped === true ? { lz: ['shadowed outer item'], la: [data.a], lb: [data.b], lc: [data.c] } : data, undefined)
           let nodes = rt.runChildren(r.C)
           while (nodes.length && nodes[0].t !== 'el') nodes = nodes[0].children
           if (!nodes.length) throw new Error('no element created')
@@ -349,17 +352,21 @@ function runShard(info, thorough) {
     for (const i of idxs) texts.push(...spellings(all[i]))
     const evs = compileTexts(texts)
     const scopedEvs = compileTexts(idxs.map((i) => M.printMin(all[i])), true)
+    const condEvs = compileTexts(idxs.map((i) => M.printMin(all[i])), 'cond')
     idxs.forEach((si, k) => {
       const e = all[si]
       const names = M.freeNames(e)
       let ref
       try { ref = M.compileRef(e) } catch (err) { rep.count('skipped:not-valid-javascript'); return }
       let minimalFailed = false
-      for (let v = 0; v < 4; v++) {
+      const refValue = ref
+      for (let v = 0; v < 5; v++) {
         if (v > 0 && minimalFailed) { rep.count('spelling-variants-skipped-after-a-failure'); continue }
         if (v === 3 && names.size === 0) continue
-        const ev = v === 3 ? scopedEvs[k] : evs[k * 3 + v]
-        const text = v === 3 ? texts[k * 3] : texts[k * 3 + v]
+        const ev = v === 4 ? condEvs[k] : v === 3 ? scopedEvs[k] : evs[k * 3 + v]
+        const text = v >= 3 ? texts[k * 3] : texts[k * 3 + v]
+        // as a condition the expression is observed through the branch taken
+        ref = v === 4 ? (data, flags) => (refValue(data, flags) ? 'T' : 'F') : refValue
         rep.transitions += 1
         if (ev.skipped) { rep.count('skipped:' + ev.skipped); continue }
         if (ev.panic) { rep.machineryErrors.push('compiler panicked on ' + text + ': ' + JSON.stringify(ev.panic)); continue }
@@ -400,10 +407,14 @@ function runShard(info, thorough) {
             rep.violation('C03|lenient-array-spread', `array spread of a value that is not an array: {{ ${text} }} with ${envText(f.env, names)} gives ${showOutcome(f.got)}, JavaScript gives ${showOutcome(f.exp)}`, { engine: 'c03', expr: text, tree: e, env: f.env, original: text })
             continue
           }
+          if (v === 4) {
+            rep.violation(`C03|as-condition:${M.printMin(e)}|${envText(f.env, names)}`, `wx:if="{{ ${text} }}" / wx:elif="{{ ${text} }}" with ${envText(f.env, names)}: the generated code takes branch ${showOutcome(f.got)}, JavaScript's value of the expression selects ${showOutcome(f.exp)} (T = if, E = elif, F = else)`, { engine: 'c03', expr: text, tree: e, env: f.env, original: text, cond: true })
+            continue
+          }
           const s = shrink(e, thorough, f.kind)
           const se = s.f && s.f.env ? s : { e, f }
           const sn = M.freeNames(se.e)
-          const fp = `C03|${v === 0 ? '' : ['', 'fully-parenthesised:', 'with-comments:', 'names-are-loop-items:'][v]}${M.printMin(se.e)}|${envText(se.f.env, sn)}`
+          const fp = `C03|${v === 0 ? '' : ['', 'fully-parenthesised:', 'with-comments:', 'names-are-loop-items:', 'as-condition:'][v]}${M.printMin(se.e)}|${envText(se.f.env, sn)}`
           rep.violation(fp, `{{ ${M.printMin(se.e)} }} with ${envText(se.f.env, sn)}: generated code gives ${showOutcome(se.f.got)}, JavaScript gives ${showOutcome(se.f.exp)} (found on {{ ${text} }})`,
             { engine: 'c03', expr: M.printMin(se.e), tree: se.e, env: se.f.env, original: text, scoped: v === 3 })
           if (v > 0) rep.count('spelling-variant-failures')
@@ -420,9 +431,10 @@ function replayOne(rec) {
     return { deterministic: true, failure: ev.rejected ? `the parser rejects {{ ${rec.expr} }} with "${ev.rejected[0]}"` : null }
   }
   const e = rec.tree
-  const ev = compileTexts([M.printMin(e)], !!rec.scoped)[0]
+  const ev = compileTexts([M.printMin(e)], rec.cond ? 'cond' : !!rec.scoped)[0]
   if (!ev.eval) return { deterministic: true, failure: null, note: 'not accepted by the compiler any more' }
-  const ref = M.compileRef(e)
+  const refValue = M.compileRef(e)
+  const ref = rec.cond ? (d, f) => (refValue(d, f) ? 'T' : 'F') : refValue
   const run = () => { const d = dataOf(rec.env); const a = outcomeOf(() => ref(d, {})); const b = ev.eval(d); return [sameOutcome(a, b), showOutcome(a), showOutcome(b)] }
   const r1 = run(); const r2 = run()
   return { deterministic: JSON.stringify(r1) === JSON.stringify(r2), failure: r1[0] ? null : `JavaScript gives ${r1[1]}, generated code gives ${r1[2]}` }
